@@ -17,6 +17,7 @@ Annet.Pattern.C07_word_boundary
 Annet.Pattern.C07_reverse_format
 Annet.Pattern.C07_reverse_roundtrip
 Annet.Pattern.C07_negate_involutive
+Annet.Pattern.C07_negation_word_is_a_whole_word
 Annet.Pattern.C07_ignorecase
 -/
 
@@ -77,6 +78,22 @@ theorem C07_negate_involutive (pre : List Char) (ws : List (List Char)) (hne : w
     (hg : ¬ ∃ w rest, ws = pre :: pre :: w :: rest) :
     negate pre (negate pre ws) = ws :=
   Lemmas.negate_involutive pre ws hne hg
+
+/-- The negation word is recognised as a WHOLE first word (`row.startswith(prefix + " ")`): a row whose first word merely
+begins with it (`notify …` for `no`, `undoable …` for `undo`) is an ordinary row, and its negated form is the negation word
+put in front of the whole row.  A row that does start with the word loses exactly that word. -/
+theorem C07_negation_word_is_a_whole_word (pre w : List Char) (ws : List (List Char)) :
+    (w ≠ pre → negate pre (w :: ws) = pre :: w :: ws) ∧
+    (ws ≠ [] → negate pre (pre :: ws) = ws) := by
+  constructor
+  · intro h
+    cases ws with
+    | nil => simp [negate, startsWithPrefix]
+    | cons x xs => simp [negate, startsWithPrefix, h]
+  · intro h
+    cases ws with
+    | nil => exact absurd rfl h
+    | cons x xs => simp [negate, startsWithPrefix]
 
 /-- `(?i)`: everything matched case-sensitively is matched, with the same key. -/
 theorem C07_ignorecase (ell : Bool) (toks : List Tok) (row : List Char) (key : List (List Char))
